@@ -466,6 +466,68 @@ def translate(repo):
     # the chunk really has chunkSize bytes aligned to `alignment`
     if not re.search(r"alignas\s*\(\s*alignment\s*\)\s*char\s+chunk_\s*\[\s*chunkSize\s*\]\s*;", pool_src):
         raise TranslateError("Pool::Chunk::chunk_ is no longer `alignas(alignment) char chunk_[chunkSize]`")
+    # Pool::grow: which byte offsets of the new chunk's storage the loop threads onto the free list behind slot 0:
+    # for (e = growFirst; e < growEnd; e += growStep).  Two spellings are understood: the pointer loop
+    # `for(char* element=start+F; element<last; element=element+S)` with `last = &start[E]` (or `start + E`), and the
+    # index loop `for (… i = I; i < N; ++i)` whose body addresses `start + i*S` / `&start[i*S]`.
+    gm = find(r"Pool<T,S>::grow\s*\(\s*\)\s*\{", src, "Pool::grow")
+    gbody = block_after(src, gm, "Pool::grow")
+    if not re.search(r"char\s*\*\s*start\s*=\s*chunks_->chunk_\s*;", gbody):
+        raise TranslateError("Pool::grow: `char* start = chunks_->chunk_;` not found")
+    if not re.search(r"Reference\s*\*\s*ref\s*=\s*new\s*\(\s*start\s*\)\s*\(?\s*Reference\s*\)?\s*;", gbody) or \
+            not re.search(r"head_\s*=\s*ref\s*;", gbody):
+        raise TranslateError("Pool::grow: slot 0 (`ref = new (start) Reference; head_ = ref;`) not understood")
+    genv = dict(env)
+    ptr_loop = re.search(r"for\s*\(\s*char\s*\*\s*(\w+)\s*=\s*start\s*\+\s*([^;]+?)\s*;\s*\1\s*(<=?)\s*last\s*;\s*"
+                         r"\1\s*(?:=\s*\1\s*\+|\+=)\s*([^;)]+?)\s*\)", gbody)
+    idx_loop = re.search(r"for\s*\(\s*(?:std::size_t|size_t|int|unsigned|unsigned\s+int|long)\s+(\w+)\s*=\s*([^;]+?)\s*;\s*\1\s*<\s*([^;]+?)\s*;\s*"
+                         r"(?:\+\+\s*\1|\1\s*\+\+)\s*\)", gbody)
+    if ptr_loop:
+        lm_ = re.search(r"char\s*\*\s*last\s*=\s*(?:&\s*start\s*\[([^;]+)\]|start\s*\+\s*([^;]+))\s*;", gbody)
+        if not lm_:
+            raise TranslateError("Pool::grow: `last` not understood")
+        g_first, g_step, g_end = ptr_loop.group(2), ptr_loop.group(4), (lm_.group(1) or lm_.group(2))
+        if ptr_loop.group(3) == "<=":
+            g_end = "(%s) + 1" % g_end
+    elif idx_loop:
+        iv = idx_loop.group(1)
+        am = re.search(r"(?:&\s*start\s*\[\s*%s\s*\*\s*([^\]]+?)\s*\]|start\s*\+\s*%s\s*\*\s*([^;)]+?)\s*[;)])" % (iv, iv), gbody)
+        if not am:
+            raise TranslateError("Pool::grow: index loop body does not address `start + i*stride`")
+        stride = (am.group(1) or am.group(2)).strip()
+        g_first = "(%s) * (%s)" % (idx_loop.group(2), stride)
+        g_step = stride
+        g_end = "(%s) * (%s)" % (idx_loop.group(3), stride)
+    else:
+        raise TranslateError("Pool::grow: loop over the slots not understood")
+    if not re.search(r"ref->next_\s*=\s*next\s*;\s*ref\s*=\s*next\s*;", gbody) or \
+            not re.search(r"\}\s*ref->next_\s*=\s*(?:0|nullptr)\s*;\s*$", gbody.strip()):
+        raise TranslateError("Pool::grow: threading of the slots (`ref->next_ = next; ref = next;` … `ref->next_ = 0;`) not understood")
+    out.append("/-- Pool::grow threads the slots at the byte offsets growFirst, growFirst + growStep, … below growEnd behind slot 0 -/")
+    D.add("growFirst", ("sz", "al", "s"), g_first, "alignedSize", genv, sizeof, alignof, grid=pool_grid)
+    D.add("growStep", ("sz", "al", "s"), g_step, "alignedSize", genv, sizeof, alignof, grid=pool_grid)
+    D.add("growEnd", ("sz", "al", "s"), g_end, "elements*alignedSize", genv, sizeof, alignof, grid=pool_grid)
+    # Pool::free: the range test of the search over the chunks (present without NDEBUG), with the chunk's storage
+    # starting at address `base`: the condition under which the walk stops at a chunk
+    fm = find(r"Pool<T,S>::free\s*\(\s*void\s*\*\s*b\s*\)\s*\{", src, "Pool::free")
+    fbody = block_after(src, fm, "Pool::free")
+    dbg = re.search(r"#\s*(?:ifndef\s+NDEBUG|if\s*!\s*defined\s*\(?\s*NDEBUG\s*\)?)(.*?)#\s*endif", fbody, re.S)
+    if not dbg:
+        raise TranslateError("Pool::free: no `#ifndef NDEBUG … #endif` block with the range test")
+    cm = re.search(r"while\s*\(\s*current\s*\)\s*\{\s*if\s*\((.*?)\)\s*break\s*;\s*current\s*=\s*current->next_\s*;\s*\}\s*"
+                   r"if\s*\(\s*!\s*current\s*\)\s*\{?\s*throw\s+std::bad_alloc\s*\(\s*\)\s*;", dbg.group(1), re.S)
+    if not cm:
+        raise TranslateError("Pool::free: search over the chunks not understood")
+    cond = cm.group(1)
+    cond = re.sub(r"static_cast\s*<\s*(?:const\s+)?(?:void|char)\s*\*\s*>", "", cond)
+    cond = re.sub(r"current->chunk_", "base", cond)
+    out.append("/-- Pool::free (without NDEBUG): a chunk whose storage starts at `base` stops the search for address `b` -/")
+    grid_f = lambda: ((ba, ba + d, cs) for ba in (64, 4096) for cs in (8, 24, 48, 4096) for d in (-1, 0, 1, 7, cs - 1, cs, cs + 1))
+    D.add("poolFreeInRange", ("base", "b", "chunkSize"), cond, "(base)<=b && (base+chunkSize)>b",
+          {"base": ("base", "base"), "b": ("b", "b"), "chunkSize": ("chunkSize", "chunkSize")}, grid=grid_f, prop=True)
+    rest = fbody[dbg.end():]
+    if not re.search(r"freed->next_\s*=\s*head_\s*;\s*head_\s*=\s*freed\s*;", rest):
+        raise TranslateError("Pool::free: `freed->next_ = head_; head_ = freed;` not found behind the range test")
     out.append("")
     out.append("/-! PoolAllocator<T,s> -/")
     m = find(r"constexpr\s+static\s+(?:int|std::size_t|size_t)\s+size\s*=\s*([^;]+);", pa_src, "PoolAllocator::size")
@@ -695,6 +757,25 @@ def translate(repo):
     out.append("/-- ~AllocationManager unmaps this many bytes at it->page_ptr for every entry still recorded -/")
     env_dt = {"%s%spages" % (var, acc): ("pages", "pages"), "page_size": ("page", "page")}
     D.add("dbgDtorUnmapLen", ("pages", "page"), m.group(3), "%s%spages * page_size" % (var, acc), env_dt, grid=grid_p, wrap=True)
+    # ---- DEBUG_NEW_DELETE: the replaced global operators are the manager's calls for T = char
+    full = strip_comments(open(os.path.join(repo, "dune/common/debugallocator.hh")).read())
+    nd = re.search(r"#\s*ifdef\s+DEBUG_NEW_DELETE\b(.*?)#\s*endif\s*(?://[^\n]*)?\s*#\s*endif", full, re.S)
+    if not nd:
+        nd = re.search(r"#\s*ifdef\s+DEBUG_NEW_DELETE\b(.*)", full, re.S)
+    if nd:
+        ops_src = re.sub(r"#\s*if\s+DEBUG_NEW_DELETE\s*>\s*2.*?#\s*endif", "", nd.group(1), flags=re.S)
+        ops_n = nows(ops_src)
+        want = [r"void\*operatornew\((?:std::)?size_t(\w+)\)\{void\*(\w+)=Dune::DebugMemory::alloc_man\.allocate<char>\(\1\);return\2;\}",
+                r"voidoperatordelete\(void\*(\w+)\)noexcept\{Dune::DebugMemory::alloc_man\.deallocate<char>\(static_cast<char\*>\(\1\)\);\}",
+                r"voidoperatordelete\(void\*(\w+),(?:std::)?size_t(\w+)\)noexcept\{Dune::DebugMemory::alloc_man\.deallocate<char>\(static_cast<char\*>\(\1\),\2\);\}"]
+        missing = [w for w in want if not re.search(w, ops_n)]
+        if missing:
+            raise TranslateError("DEBUG_NEW_DELETE: the replaced operators are no longer the plain manager calls for char: %r" % missing[0][:60])
+        out.append("/-- DEBUG_NEW_DELETE (not built): operator new(size) = alloc_man.allocate<char>(size), operator delete(p) =")
+        out.append("    alloc_man.deallocate<char>(p) (n = 0), operator delete(p, size) = alloc_man.deallocate<char>(p, size) -/")
+        out.append("def dbgNewDeleteIsManagerForChar : Bool := true")
+    else:
+        out.append("def dbgNewDeleteIsManagerForChar : Bool := false")
     out.append("")
     out.append("end DV.C15.Gen")
     return [("DuneVerif/Gen/C15.lean", "\n".join(out) + "\n")]
